@@ -122,7 +122,8 @@ TkInit == [
     sawF |-> {},                                        \* failure reports made during this call (targets)
     sawS |-> {},
     stepDone |-> FALSE, planBefore |-> <<>>, fired |-> <<>>, outcome |-> 0,     \* plan step of this cycle
-    phases |-> 0 ]
+    phases |-> 0,
+    desync |-> FALSE ]      \* a structural rule was violated in this call: the rest of the call is not interpreted
 
 Cont(tk, e) == tk.dpos > 0 /\ tk.dm = e.m /\ tk.ds = e.s /\ tk.dpos < Len(Order(e)) /\ Order(e)[tk.dpos + 1] = e.j
 
@@ -152,7 +153,7 @@ TkCall(tk, e) ==
                            !.inround = FALSE, !.rpend = NoT, !.rcancel = FALSE, !.rfirst = FALSE,
                            !.surv = NoT, !.passed = {}, !.rounds = 0,
                            !.sawF = {}, !.sawS = {}, !.stepDone = FALSE, !.fired = <<>>, !.outcome = 0, !.phases = 0,
-                           !.planBefore = <<>>]
+                           !.planBefore = <<>>, !.desync = FALSE]
     IN  CASE e.op = "ctor"   -> [TkInit EXCEPT !.alive = TRUE, !.incall = TRUE, !.op = "ctor", !.logger = HasLog /\ e.p # 0]
           [] e.op \in {"to", "ito"}     -> [base EXCEPT !.lastreq = <<NONE, e.a, 0>>]
           [] e.op \in {"with", "iwith"} -> [base EXCEPT !.lastreq = <<NONE, e.a, e.p>>]
@@ -235,7 +236,11 @@ TkStep(tk, e) ==
 (* What each property says about one event.  V(c, p, why) contributes a     *)
 (* finding <<p, why>> when condition c is violated.                         *)
 
-V(ok, p, why) == IF ok THEN {} ELSE {<<p, why>>}
+\* level 0: valid whatever else happened; level 1: structural (once violated, the rest of the call cannot be interpreted:
+\* the tracker is marked out of step until the next call and level-2 findings are suppressed); level 2: relies on the call's structure
+VL(ok, p, why, lvl) == IF ok THEN {} ELSE {<<p, why, lvl>>}
+V(ok, p, why) == VL(ok, p, why, IF p \in {"C05", "C15"} THEN 1 ELSE 2)
+V0(ok, p, why) == VL(ok, p, why, 0)
 
 Unchanged(tk, e) == e.act = tk.obs.act /\ e.ia = tk.obs.ia /\ e.prev = tk.obs.prev /\ e.plan = tk.obs.plan /\ e.on = tk.obs.on
 
@@ -262,19 +267,19 @@ CheckCb(tk, e, tk2) ==
     \* ---- C15 / C14 / C06: hold for every callback, whatever the classes define
        V(IF cont THEN TRUE ELSE (tk.dpos = 0 \/ tk.dpos = Len(SubOrder(tk.dm, tk.ds))) /\ DStart(e),
          "C15", "injections and the state's own callback are not delivered in the declared order, exactly once each")
-    \cup V(e.self = 1, "C14", "the object whose callback runs is not the one access<T>() returns")
-    \cup V(e.sid = e.s, "C14", "control.stateId() inside a callback is not the id of the state the callback belongs to")
-    \cup V(e.sid = e.s, "C06", "control.stateId() is not the callback's own state id")
-    \cup V(e.cact = e.mia, "C06", "control.isActive(id) disagrees with the machine's own isActive(id)")
-    \cup V(e.ctx = 1, "C06", "control.context() is not the machine's context object")
+    \cup V0(e.self = 1, "C14", "the object whose callback runs is not the one access<T>() returns")
+    \cup V0(e.sid = e.s, "C14", "control.stateId() inside a callback is not the id of the state the callback belongs to")
+    \cup V0(e.sid = e.s, "C06", "control.stateId() is not the callback's own state id")
+    \cup V0(e.cact = e.mia, "C06", "control.isActive(id) disagrees with the machine's own isActive(id)")
+    \cup V0(e.ctx = 1, "C06", "control.context() is not the machine's context object")
     \cup V(IsPhase(tk.dm) /\ IsPhase(e.m) /\ tk.dpos > 0 => e.req = tk.lastreq,
            "C06", "control.request() does not show the request made in the preceding callback")
-    \cup V(CtrlKind(e.m) >= 1 /\ (proc \/ actv) /\ tk.stage \in {"guard", "life"} /\ FullObs => e.cur = survNow,
+    \cup V(IsGuard(e.m) /\ (proc \/ actv) /\ FullObs => e.cur = survNow,
            "C06", "currentTransition() is not the transition accepted so far in this processing step")
-    \cup V(e.mact2 = e.mact, "C02", "the active state changed while a callback was making requests")
+    \cup V0(e.mact2 = e.mact, "C02", "the active state changed while a callback was making requests")
     \cup V(e.ev # 0, "C05", "the callback did not receive the caller's own event object")
     \* ---- payload integrity
-    \cup V(e.req[3] # 999 /\ e.cur[3] # 999 /\ e.pend[3] # 999 /\ \A q \in 1 .. Len(e.plan) : e.plan[q][3] # 999,
+    \cup V0(e.req[3] # 999 /\ e.cur[3] # 999 /\ e.pend[3] # 999 /\ \A q \in 1 .. Len(e.plan) : e.plan[q][3] # 999,
            "C07", "a payload shown to a callback does not carry the bytes of any payload that was supplied")
     \cup V(rstart /\ proc /\ FullObs /\ (HasHead \/ ~step) /\ e.pend[1] = ExpectedPend(tk, tk2)[1] /\ e.pend[2] = ExpectedPend(tk, tk2)[2]
              => e.pend[3] = ExpectedPend(tk, tk2)[3],
@@ -282,7 +287,7 @@ CheckCb(tk, e, tk2) ==
     \cup V(IsLife(e.m) /\ e.s # NONE /\ proc /\ FullObs /\ e.cur[1] = survNow[1] /\ e.cur[2] = survNow[2] => e.cur[3] = survNow[3],
            "C07", "enter/reenter/exit do not see the payload of the transition being applied")
     \* ---- C16: logging relative to the deliveries observed
-    \cup V(~tk.logger => e.pre = <<>> /\ \A q \in 1 .. Len(e.acts) : e.acts[q].lg = <<>>,
+    \cup V0(~tk.logger => e.pre = <<>> /\ \A q \in 1 .. Len(e.acts) : e.acts[q].lg = <<>>,
            "C16", "log records although no logger is attached")
     \cup V(tk.logger /\ cont => e.pre = <<>>, "C16", "log record between the injections and the state's own callback of one delivery")
     \cup V(tk.logger /\ start /\ (Verbose \/ LogDefined(e.s, e.m)) => e.pre # <<>> /\ Last(e.pre) = <<"m", e.s, e.m>>,
@@ -295,7 +300,7 @@ CheckCb(tk, e, tk2) ==
                 \/ e.pre[q][1] = "t" /\ ((step /\ \E z \in 1 .. Len(tk2.fired) : <<e.pre[q][2], e.pre[q][3]>> = <<tk2.fired[z][1], tk2.fired[z][2]>>)
                                           \/ (tk.stage = "pre" /\ tk.op \in {"ito", "iwith"} /\ e.pre[q][2] = NONE /\ e.pre[q][3] = tk.oa)),
            "C16", "a log record does not correspond to a delivery or action happening at that moment")
-    \cup V(tk.logger => \A q \in 1 .. Len(e.acts) :
+    \cup V0(tk.logger => \A q \in 1 .. Len(e.acts) :
              LET a == e.acts[q] IN
              a.lg = CASE a.k \in {"T", "W"} -> <<<<"t", e.sid, a.a>>>>
                       [] a.k = "X" -> <<<<"c", e.sid, 0>>>>
@@ -304,7 +309,7 @@ CheckCb(tk, e, tk2) ==
                       [] OTHER -> <<>>,
            "C16", "an action inside a callback did not produce exactly its log record")
     \* ---- plan bookkeeping visible in every view
-    \cup V(PlanActsOK(pn, e.acts, 1), "C10", "append / remove result disagrees with the exact task capacity")
+    \cup V0(PlanActsOK(pn, e.acts, 1), "C10", "append / remove result disagrees with the exact task capacity")
     \cup V(CtrlKind(e.m) >= 1 /\ ~step /\ tk.incall /\ tk.dpos > 0 /\ ~(IsPlanCb(tk.dm) /\ tk.dpos = Len(SubOrder(tk.dm, tk.ds))) /\ HasPlanAct(tk.lastacts)
              => pn = pb,
            "C10", "the plan seen after plan edits is not the sequence of tasks appended and not removed")
@@ -350,6 +355,7 @@ CheckCb(tk, e, tk2) ==
     \cup V(rstart /\ actv => tk2.rounds <= L + 1, "C04", "activation evaluated more redirections than the substitution limit")
     \* ---- C05
     \cup V(IsPhase(e.m) => tk.stage \in {"pre", "phase"}, "C05", "phase callback after guards / enter / exit of the same call")
+    \cup V(step => tk.phases = PhaseDeliveries, "C05", "requests were processed (or the plan stepped) before every phase callback of the call had run")
     \cup V(IsPhase(e.m) \/ e.m = M_QUERY => e.s \in {NONE, a0}, "C05", "phase callback of a state that was not active when the call began")
     \cup V(IsPhase(e.m) \/ e.m = M_QUERY => tk.op \in {"update", "react", "query"}, "C05", "phase callback outside update()/react()/query()")
     \* ---- C08 / C09: the plan step
@@ -361,7 +367,7 @@ CheckCb(tk, e, tk2) ==
     \cup V(step /\ HasHead /\ pb # <<>> /\ pb[1][1] = a0 /\ a0 \in tk.succ /\ tk.fail = {} /\ tk.sawF = {} => ~IsPlanCb(e.m) /\ pos # <<>> /\ pos[1] = 1,
            "C08", "the first task did not fire although its origin is active and reported success without failures")
     \cup V(~step /\ ~IsPlanCb(e.m) /\ rstart /\ proc /\ tk.op \in {"update", "react"} /\ tk.stepDone /\ tk.rounds = 0 /\ tk.outcome = 2
-             => e.pend = tk.lastreq,
+             => ~(\E q \in 1 .. Len(tk.planBefore) : tk.planBefore[q] = e.pend) \/ (e.pend[1] = tk.lastreq[1] /\ e.pend[2] = tk.lastreq[2]),
            "C09", "a task fired in a cycle that delivered planFailed")
     \cup V(e.m = M_PLAN_FAILED /\ start => tk.planExists /\ (a0 \in tk.fail \/ tk.sawF # {}), "C09", "planFailed delivered without an outstanding failure or without any task ever added")
     \cup V(e.m = M_PLAN_SUCCEEDED /\ start => tk.planExists /\ pb = <<>> /\ (a0 \in tk.succ \/ tk.sawS # {}),
@@ -382,11 +388,11 @@ CheckRet(tk, e, tk2) ==
         tgt  == IF bit THEN (tk.oa \div 2) % Pow2(WidthBits) ELSE NONE
     IN
        V(e.op = tk.op, "C04", "a different call returned than the one that began")
-    \cup V(e.prev[3] # 999 /\ \A q \in 1 .. Len(e.plan) : e.plan[q][3] # 999, "C07", "a payload reported by the machine does not carry the bytes of any payload that was supplied")
+    \cup V0(e.prev[3] # 999 /\ \A q \in 1 .. Len(e.plan) : e.plan[q][3] # 999, "C07", "a payload reported by the machine does not carry the bytes of any payload that was supplied")
     \* ---- C10: observers of the plan
-    \cup V(e.pne = (IF e.plan # <<>> THEN 1 ELSE 0) /\ e.pfirst = (IF e.plan # <<>> THEN e.plan[1] ELSE NoT)
+    \cup V0(e.pne = (IF e.plan # <<>> THEN 1 ELSE 0) /\ e.pfirst = (IF e.plan # <<>> THEN e.plan[1] ELSE NoT)
             /\ e.plast = (IF e.plan # <<>> THEN Last(e.plan) ELSE NoT), "C10", "first()/last()/emptiness test disagree with iteration")
-    \cup V(Len(e.plan) <= Cap, "C10", "more tasks than the task capacity")
+    \cup V0(Len(e.plan) <= Cap, "C10", "more tasks than the task capacity")
     \cup V(tk.op = "pc" => e.r = (IF Len(pb) < Cap THEN 1 ELSE 0) /\ e.plan = (IF Len(pb) < Cap THEN Append(pb, <<tk.oa, tk.ob, 0>>) ELSE pb),
            "C10", "append succeeds exactly when fewer than capacity tasks are present, else leaves the plan untouched")
     \cup V(tk.op = "pw" => e.r = (IF Len(pb) < Cap THEN 1 ELSE 0) /\ e.plan = (IF Len(pb) < Cap THEN Append(pb, <<tk.oa, tk.ob, tk.opp>>) ELSE pb),
@@ -452,7 +458,7 @@ CheckRet(tk, e, tk2) ==
     \cup V(proc /\ sv = NoT => tk.life = <<>> /\ e.act = a0, "C02", "enter/exit/reenter ran or the active state changed although no request survived")
     \cup V(tk.op \in PassiveOps => tk.life = <<>> /\ e.act = a0, "C02", "a request changed the active state at the moment it was made")
     \* ---- C03 / C04
-    \cup V(proc /\ tk2.lastreq # NoT => tk2.rounds = L \/ IsDup(sv, tk2.lastreq), "C03", "a request made during processing was neither evaluated by a fresh round of guards nor left for the next processing point")
+    \cup V(proc /\ tk2.lastreq # NoT => tk2.rounds >= L \/ IsDup(sv, tk2.lastreq), "C03", "a request made during processing was neither evaluated by a fresh round of guards nor left for the next processing point")
     \cup V(proc \/ actv => e.act # NONE /\ e.ia = <<e.act>>, "C04", "processing did not end with exactly one active state")
     \cup V(proc => e.act = a0 \/ \E t \in tk2.passed : t[2] = e.act, "C04", "the state active after processing is not among the requests that passed their guards")
     \cup V(actv => e.act = 0 \/ \E t \in tk2.passed : t # NoT /\ t[2] = e.act, "C04", "the state active after activation is neither the initial state nor a redirect that passed its guards")
@@ -470,18 +476,26 @@ CheckCall(tk, e, tk2) ==
 
 CheckOther(tk, e, tk2) ==
     IF e.e = "cfg"
-    THEN   V(e.ids[1] = NONE /\ \A i \in States : e.ids[i + 2] = i, "C14", "stateId<T>() is not the zero-based position of T in the declaration (or the root head has a valid id)")
-      \cup V(~HasSerial \/ (e.serbits = 1 + WidthBits /\ 2 * (N - 1) + 1 < Pow2(e.serbits)), "C12", "the serial buffer capacity does not suffice for the state count")
+    THEN   V0(e.ids[1] = NONE /\ \A i \in States : e.ids[i + 2] = i, "C14", "stateId<T>() is not the zero-based position of T in the declaration (or the root head has a valid id)")
+      \cup V0(~HasSerial \/ (e.serbits = 1 + WidthBits /\ 2 * (N - 1) + 1 < Pow2(e.serbits)), "C12", "the serial buffer capacity does not suffice for the state count")
       \cup V(~tk.incall, "C04", "an execution ended inside a call that never returned")
     ELSE IF e.e \in {"crash", "truncated", "garbled"}
-    THEN V(FALSE, "C04", "the call did not return (crash, hang or runaway)")
-      \cup V(~(HasPay /\ tk.incall /\ (tk.lastreq[3] # 0 \/ tk.rpend[3] # 0 \/ tk.surv[3] # 0 \/ tk.opp # 0)), "C07", "crash while a payload-carrying transition was in flight")
+    THEN V0(FALSE, "C04", "the call did not return (crash, hang or runaway)")
+      \cup V0(~(HasPay /\ tk.incall /\ (tk.lastreq[3] # 0 \/ tk.rpend[3] # 0 \/ tk.surv[3] # 0 \/ tk.opp # 0)), "C07", "crash while a payload-carrying transition was in flight")
     ELSE {}
 
-Checks(tk, e, tk2) ==
+RawChecks(tk, e, tk2) ==
     CASE e.e = "cb"   -> CheckCb(tk, e, tk2)
       [] e.e = "ret"  -> CheckRet(tk, e, tk2)
       [] e.e = "call" -> CheckCall(tk, e, tk2)
       [] OTHER        -> CheckOther(tk, e, tk2)
+
+\* one monitor step: new tracker and the findings <<property, why>> of this event
+Judge(tk, e) ==
+    LET tk2 == TkStep(tk, e)
+        raw == RawChecks(tk, e, tk2)
+        ds  == e.e \notin {"call", "cfg"} /\ (tk.desync \/ \E f \in raw : f[3] = 1)
+    IN  [tk |-> [tk2 EXCEPT !.desync = ds],
+         findings |-> {<<f[1], f[2]>> : f \in {g \in raw : ~ds \/ g[3] <= 1}}]
 
 =============================================================================
